@@ -65,7 +65,7 @@ example : [T3.fence 0 (L "``") [] [] (L "``\n"), T3.fence 0 (L "``~") [] [] (L "
 example : [T3.fence 0 (L "```") [] [] (L "```\n"), T3.fence 3 (L "~~~") (L " a`b ~ ") [L "# x\n", L "- y\n", L "> z\n", L "***\n", L "\n"] (L "~~~\n"),
     T3.fence 1 (L "````") (L "x") [L "```\n", L "~~~~\n", L "    ````\n", L "```` x\n"] (L "   `````   \n")].map T3.ok = List.replicate 3 true := by
   decide +kernel
-/-- a fence at indentation 2 is not admitted as the first block of a list item, nor directly behind a list -/
+/-- a fence at indentation 2 is not accepted as the first block of a list item, nor directly behind a list -/
 example : T3.ok (.list false 0 '-' 1 false [[.fence 2 (L "```") [] [] (L "```\n")]]) = false ∧
     T3.oks [.list false 0 '-' 1 false [[.para [L "a\n"]]], .fence 2 (L "```") [] [] (L "```\n")] = false ∧
     T3.oks [.list false 0 '-' 1 false [[.para [L "a\n"]]], .fence 0 (L "```") [] [] (L "```\n")] = true := by
